@@ -60,9 +60,11 @@ def allSame {α : Type} [DecidableEq α] : List α → Bool
   | [] => true
   | a :: l => l.all (fun b => decide (b = a))
 
-/-- strict lexicographic order on the 3-tuple keys used by `get_unique_protoclusters` -/
-def tripleLt (a b : Int × Int × Int) : Bool :=
-  decide (a.1 < b.1) || (decide (a.1 = b.1) && (decide (a.2.1 < b.2.1) || (decide (a.2.1 = b.2.1) && decide (a.2.2 < b.2.2))))
+/-- strict lexicographic order on the 5-tuple keys used by `get_unique_protoclusters` -/
+def tripleLt (a b : Int × Int × Int × Int × Int) : Bool :=
+  decide (a.1 < b.1) || (decide (a.1 = b.1) && (decide (a.2.1 < b.2.1) || (decide (a.2.1 = b.2.1) &&
+    (decide (a.2.2.1 < b.2.2.1) || (decide (a.2.2.1 = b.2.2.1) && (decide (a.2.2.2.1 < b.2.2.2.1) ||
+      (decide (a.2.2.2.1 = b.2.2.2.1) && decide (a.2.2.2.2 < b.2.2.2.2))))))))
 
 /-- strict order on names (ranks) -/
 def intLt (a b : Int) : Bool := decide (a < b)
